@@ -31,3 +31,14 @@ locs = {f["path"]: [[b[0], b[2], b[3], b[4]] for b in inline.local_bindings(f["h
         if f["kind"] in ("Fn", "AssocFn") and f.get("hir")}
 json.dump(locs, open(os.path.join(HERE, "rules", "known_locals.json"), "w"), indent=0)
 print(len(names), "functions frozen")
+# the castling accessors of GameState as they are on the reference tree (rules/inline.canon_rights): record + bit index
+from rules.common import gamestate_layout      # noqa: E402
+lay = gamestate_layout(F)
+acc = {"bits": lay, "fns": {}}
+for f in d["fns"]:
+    p_ = f["path"]
+    if p_.startswith("chess::gamestate::GameState::") and p_.endswith(("_castling", "_castling_true", "_castling_false")):
+        acc["fns"][p_] = f
+json.dump(acc, open(os.path.join(HERE, "rules", "known_accessors.json"), "w"))
+print(len(acc["fns"]), "accessors frozen, bits", lay)
+
